@@ -68,6 +68,15 @@ def _fp(v, depth=0):
     return "o:" + type(v).__name__
 
 
+def _mutable_defaults(fn):
+    """Fingerprint of a function's mutable default arguments (they are evaluated once)."""
+    vals = list(getattr(fn, "__defaults__", None) or ()) + list((getattr(fn, "__kwdefaults__", None) or {}).values())
+    vals = [v for v in vals if isinstance(v, (list, dict, set, bytearray, np.ndarray))]
+    if not vals:
+        return None
+    return _h(repr([_fp(v) for v in vals]).encode())
+
+
 def _interesting(v):
     return isinstance(v, CONTAINERS) or isinstance(v, np.ndarray) or hasattr(v, "cache_info") or isinstance(
         v, (bool, int, float, str, type(None))
@@ -109,13 +118,21 @@ def snapshot(prefix="chmpy"):
                 for cattr, cval in list(vars(val).items()):
                     if cattr.startswith("__") and cattr.endswith("__"):
                         continue
-                    if isinstance(cval, (staticmethod, classmethod, property)) or (
-                        callable(cval) and not hasattr(cval, "cache_info")
-                    ):
+                    if isinstance(cval, (staticmethod, classmethod)):
+                        cval = cval.__func__
+                    if isinstance(cval, property):
+                        continue
+                    if callable(cval) and not hasattr(cval, "cache_info"):
+                        d = _mutable_defaults(cval)
+                        if d is not None:
+                            out["%s.%s.%s.__defaults__" % (name, attr, cattr)] = d
                         continue
                     if _interesting(cval):
                         out["%s.%s.%s" % (name, attr, cattr)] = _fp(cval)
             elif callable(val) and not hasattr(val, "cache_info"):
+                d = _mutable_defaults(val)
+                if d is not None and getattr(val, "__module__", None) == name:
+                    out["%s.%s.__defaults__" % (name, attr)] = d
                 continue
             elif _interesting(val):
                 out["%s.%s" % (name, attr)] = _fp(val)
